@@ -1,37 +1,44 @@
 ----------------------------- MODULE MC_Disabled -----------------------------
 EXTENDS Disabled, TLC, Json
-CONSTANTS Kinds, MaxOps, DoEmit
-VARIABLES kind, x, everH, n, obs
-vars == <<kind, x, everH, n, obs>>
+CONSTANTS Kinds,      \* set of handler lists
+          MaxOps, DoEmit
+VARIABLES kind, x, known, n, obs
+vars == <<kind, x, known, n, obs>>
 Obs0 == [op |-> "init", arg |-> "", res |-> <<"ok">>]
-Init == kind \in Kinds /\ x \in (Stored \ {"D"}) /\ everH = (x \in {"H", "M1H", "M2H"}) /\ n = 0 /\ obs = Obs0
+Init == kind \in Kinds /\ x \in (Stored \ {"D"}) /\ known = TRUE /\ n = 0 /\ obs = Obs0
 Step == n < MaxOps /\ n' = n + 1 /\ kind' = kind
-DisableA == /\ Step
+DisableA == /\ Step /\ known' = known
             /\ LET r == Disable(kind, x) IN x' = r[2] /\ obs' = [op |-> "disable", arg |-> x, res |-> r]
-            /\ everH' = everH
-EnableA  == /\ Step /\ x \notin {"None"}
-            /\ LET r == Enable(kind, x) IN
+EnableA  == /\ Step /\ x \notin {"None"} /\ known' = known
+            /\ LET r == Enable(kind, known, x) IN
                /\ x' = IF r[1] = "ok" /\ r[2] # "Dtail" THEN r[2] ELSE x
                /\ obs' = [op |-> "enable", arg |-> x, res |-> r]
-            /\ everH' = everH
-VerifyA(right) == /\ Step /\ UNCHANGED <<x, everH>>
-                  /\ obs' = [op |-> "verify", arg |-> IF right THEN "right" ELSE "wrong", res |-> <<Verify(kind, right, x)>>]
-IsEnabledA == /\ Step /\ UNCHANGED <<x, everH>> /\ x # "None"
-              /\ obs' = [op |-> "is_enabled", arg |-> x, res |-> <<IsEnabled(kind, x)>>]
-Next == DisableA \/ EnableA \/ IsEnabledA \/ \E r \in BOOLEAN : VerifyA(r)
-SimNext == LET w == RandomElement(1..8) IN
-           CASE w \in {1, 2, 3} -> DisableA [] w \in {4, 5} -> EnableA [] w = 6 -> IsEnabledA [] OTHER -> VerifyA(RandomElement(BOOLEAN))
+VerifyA(right) == /\ Step /\ UNCHANGED <<x, known>>
+                  /\ obs' = [op |-> "verify", arg |-> IF right THEN "right" ELSE "wrong", res |-> <<Verify(kind, known, right, x)>>]
+IsEnabledA == /\ Step /\ UNCHANGED <<x, known>> /\ x # "None"
+              /\ obs' = [op |-> "is_enabled", arg |-> x, res |-> <<IsEnabled(kind, known, x)>>]
+\* load() of a configuration without (resp. again with) the real scheme; the disabled handlers stay
+ReloadA == /\ Step /\ x' = x /\ known' = ~known
+           /\ obs' = [op |-> "reload", arg |-> IF known THEN "drop" ELSE "restore", res |-> <<"ok">>]
+Next == DisableA \/ EnableA \/ IsEnabledA \/ ReloadA \/ \E r \in BOOLEAN : VerifyA(r)
+Rnd(S, d) == IF d >= 0 THEN RandomElement(S) ELSE CHOOSE e \in S : TRUE
+SimNext == \E w \in {Rnd(1..10, n)}, b \in {Rnd(BOOLEAN, n)} :
+           CASE w \in {1, 2, 3} -> DisableA [] w \in {4, 5} -> EnableA [] w = 6 -> IsEnabledA [] w = 7 -> ReloadA [] OTHER -> VerifyA(b)
 
 \* a disabled account never logs in
 InvNoLogin == (obs.op = "verify" /\ obs.res[1] = "True") => x = "H"
+\* a missing credential never logs in and is never an error, whatever was (re)configured before
+InvNoneFalse == (obs.op = "verify" /\ x = "None") => obs.res = <<"False">>
 \* what disable() produces is recognised as disabled and stays so when disabled again
-InvDisableDisables == obs.op = "disable" => (IsDisabled(kind, x) /\ Disable(kind, x)[1] = "ok" /\ IsDisabled(kind, Disable(kind, x)[2]))
+InvDisableDisables == obs.op = "disable" => (IsDisabled(kind, known, x) /\ Disable(kind, x)[1] = "ok" /\ IsDisabled(kind, known, Disable(kind, x)[2]))
 \* disable then enable restores the original hash exactly (schemes that embed it)
 RestoreExact == [][(obs'.op = "enable" /\ obs'.res[1] = "ok" /\ obs'.arg \in {"M1H", "M2H"}) => x' = "H"]_vars
+\* an embedded hash can always be got back when the string is attributed to a unix-style handler
+RestoreAlways == [][(obs'.op = "enable" /\ obs'.arg \in {"M1H", "M2H"} /\ Ident(kind, known, obs'.arg) \in {"unix1", "unix2"}) => obs'.res = <<"ok", "H">>]_vars
 \* enabling a normal hash returns it unchanged
-EnableNormal == [][(obs'.op = "enable" /\ obs'.arg = "H") => (obs'.res = <<"ok", "H">> /\ x' = "H")]_vars
-\* the original hash is never lost by disabling an account that has one (unix style)
-InvHashKept == (kind # "django" /\ obs.op = "disable" /\ obs.arg \in {"H", "M1H", "M2H"}) => x \in {"M1H", "M2H"}
+EnableNormal == [][(obs'.op = "enable" /\ obs'.arg = "H" /\ known) => (obs'.res = <<"ok", "H">> /\ x' = "H")]_vars
+\* the original hash is never lost by disabling an account that has one (unix style first)
+InvHashKept == (kind[1] # "django" /\ obs.op = "disable" /\ obs.arg \in {"H", "M1H", "M2H"}) => x \in {"M1H", "M2H"}
 Emit == DoEmit => PrintT(<<"EMIT", ToJson([n |-> n, kind |-> kind, op |-> obs'.op, arg |-> obs'.arg, res |-> obs'.res,
-                                           x0 |-> IF n = 0 THEN x ELSE "", x |-> x'])>>)
+                                           x0 |-> IF n = 0 THEN x ELSE "", x |-> x', known |-> known'])>>)
 =============================================================================
